@@ -70,37 +70,45 @@ fn pa(id: u16) -> PasswordAlgorithm {
     PasswordAlgorithm::new(Algorithm::from(AlgorithmId::from(id)))
 }
 
-#[kani::proof]
-#[kani::unwind(5)]
-#[kani::stub(alloc::fmt::format, nofmt)]
-fn c19_password_algorithms_clone_mutate() {
+// PRE: the original already holds one algorithm; WHICH: the copy that is mutated (true = original)
+fn c19_password_algorithms_clone<const PRE: bool, const WHICH: bool>() {
     let mut a = PasswordAlgorithms::default();
     let first: u16 = kani::any();
-    let pre: bool = kani::any();
-    if pre {
+    if PRE {
         a.add(pa(first));
     }
     let n0 = a.password_algorithms().len();
     let mut b = a.clone();
-    let which: bool = kani::any();
     let x: u16 = kani::any();
-    if which {
+    if WHICH {
         a.add(pa(x));
-        assert!(a.password_algorithms().len() == n0 + 1);
-        assert!(b.password_algorithms().len() == n0);
+        assert!(a.password_algorithms().len() == n0 + 1, "C19: add on a cloned value works");
+        assert!(b.password_algorithms().len() == n0, "C19: the clone is unaffected");
     } else {
         b.add(pa(x));
-        assert!(b.password_algorithms().len() == n0 + 1);
-        assert!(a.password_algorithms().len() == n0);
+        assert!(b.password_algorithms().len() == n0 + 1, "C19: add on the clone works");
+        assert!(a.password_algorithms().len() == n0, "C19: the original is unaffected");
     }
-    if pre {
+    if PRE {
         assert!(u16::from(a.password_algorithms()[0].algorithm()) == first);
         assert!(u16::from(b.password_algorithms()[0].algorithm()) == first);
     }
-    kani::cover!(pre && which);
-    kani::cover!(!pre && !which);
     std::mem::forget(a);
     std::mem::forget(b);
+}
+macro_rules! pac_inst {
+    ($($name:ident = ($p:expr, $w:expr);)*) => {$(
+        #[kani::proof]
+        #[kani::unwind(4)]
+        #[kani::stub(alloc::fmt::format, nofmt)]
+        fn $name() { c19_password_algorithms_clone::<$p, $w>(); }
+    )*};
+}
+pac_inst! {
+    c19_password_algorithms_clone_empty_orig = (false, true);
+    c19_password_algorithms_clone_empty_copy = (false, false);
+    c19_password_algorithms_clone_one_orig = (true, true);
+    c19_password_algorithms_clone_one_copy = (true, false);
 }
 
 #[kani::proof]
